@@ -714,6 +714,14 @@ def check_selfcheck(case, ctx):
     ctx.nontrivial(True)
 
 
+from . import _batch  # noqa: E402
+
+
+def _kink(name, point, dtype):
+    """spot exactly at its running maximum is not in the open domain of the path-dependent Greeks (the price has a kink there)"""
+    return name.startswith(("lookback_", "american_binary_")) and point["dm"] == 0.0
+
+
 SUBS = [
     Sub("closed_forms", check_closed, time_cap={"quick": 150.0, "thorough": 900.0},
         rule="family in {European, European binary, American binary, lookback} x form in {functional, free module, "
@@ -743,6 +751,11 @@ SUBS = [
     Sub("selfcheck", check_selfcheck,
         rule="Ridders routine and the hand-written derivative tables against exactly known derivatives",
         enumerate=lambda tier: [{"selfcheck": 1}], examples={"quick": 1, "thorough": 1}, serial=True, exhaustive=True),
+    Sub("batch_independence", lambda case, ctx: _batch.check_batch(case, ctx, _batch.DELTAS + _batch.GREEKS + _batch.AUTOGRAD, "C08", skip=_kink),
+        rule="2..7 points of the open domain per call (hit and not-hit barriers in any order, log-moneyness incl. exact 0) as vector / column / "
+             "matrix: every closed-form and autograd Greek at an element of the batch must equal the Greek of that element evaluated alone (which "
+             "closed_forms ties to the derivative of the price). Non-trivial: hit and not-hit barriers in one batch.",
+        strategy=lambda tier: _batch.batch_case(boundary=False), examples={"quick": 1200, "thorough": 12000}),
 ]
 
 META = {
